@@ -50,6 +50,7 @@ type Shape struct {
 	ElemAt   []ElemSeg `json:"elem"`  // active element segments in order
 	Start    string    `json:"start"` // "" | "ok" | "trap" | "gset" (start sets g := 9)
 	ID       int       `json:"id"`
+	FG       bool      `json:"fg"`       // funcref global fg = ref.func f1 and tsetfg(s): table.set s (global.get fg)
 	TailCall bool      `json:"tailcall"` // export trcall (return_call_indirect); needs the tail-call feature    // identity baked into the module: f1 returns ID*10+1, f2 ID*10+2
 	Passive  bool      `json:"passive"`
 }
@@ -194,6 +195,10 @@ func Build(s Shape) []byte {
 			wasm.OpcodeRefFunc, wb.U32(f3), wasm.OpcodeElse, wasm.OpcodeRefFunc, wb.U32(f2), wasm.OpcodeEnd,
 			wasm.OpcodeEnd,
 			wasm.OpcodeTableSet, wb.U32(0)))
+		if s.FG {
+			fg := m.Global(wasm.ValueTypeFuncref, false, wb.ConstRefFunc(f1), "")
+			add("tsetfg", i32, nil, wb.Cat(wb.LocalGet(0), wb.GlobalGet(fg), wasm.OpcodeTableSet, wb.U32(0)))
+		}
 		if s.TailCall {
 			add("trcall", i32, i32, wb.Cat(wb.LocalGet(0), wasm.OpcodeTailCallReturnCallIndirect, wb.U32(tRet), wb.U32(0)))
 		}
